@@ -137,6 +137,8 @@ fn full_atoms() -> Vec<A> {
         A::Kv("name", Comparison::Contains(s("li"))),
         A::Kv("name", Comparison::StartsWith(s("b"))),
         A::Kv("name", Comparison::EndsWith(s("e"))),
+        A::Kv("age", Comparison::Contains(DbValue::VecI64(vec![40, 40]))),
+        A::Kv("name", Comparison::Contains(DbValue::VecString(vec!["l".to_string(), "i".to_string(), "l".to_string()]))),
         A::Kv("w", Comparison::GreaterThan(DbValue::I64(0))),
         A::Kv("nokey", Comparison::NotEqual(DbValue::I64(1))),
     ]);
@@ -485,52 +487,35 @@ fn coarse_shape(list: &[C]) -> String {
 // ---------------------------------------------------------------------------
 // part "grid"
 
+/// Value corpus of the grid. Scalars of every type, and for strings and the
+/// four list types the same systematic set of shapes (as stored value AND as
+/// operand, the grid is the full cross product): empty, one element, repeated
+/// element, two elements in both orders, longer with a repetition, three
+/// elements, a non-contiguous sub-sequence, a proper suffix, the last element,
+/// a list with the first element repeated at the end - so that operands
+/// shorter than / as long as / longer than the stored value, with and without
+/// repetitions, proper prefixes/suffixes and non-contiguous sub-sequences all occur.
 fn corpus() -> Vec<DbValue> {
     let f = |x: f64| agdb::DbF64::from(x);
-    let st = |x: &str| x.to_string();
-    vec![
-        DbValue::Bytes(vec![]),
-        DbValue::Bytes(vec![1]),
-        DbValue::Bytes(vec![1, 2]),
-        DbValue::I64(-1),
-        DbValue::I64(0),
-        DbValue::I64(1),
-        DbValue::I64(5),
-        DbValue::I64(30),
-        DbValue::I64(40),
-        DbValue::U64(0),
-        DbValue::U64(1),
-        DbValue::U64(5),
-        DbValue::U64(30),
-        DbValue::U64(40),
-        DbValue::F64(f(-1.0)),
-        DbValue::F64(f(0.0)),
-        DbValue::F64(f(1.0)),
-        DbValue::F64(f(5.0)),
-        DbValue::F64(f(30.5)),
-        s(""),
-        s("1"),
-        s("a"),
-        s("ab"),
-        s("abc"),
-        s("b"),
-        s("bc"),
-        DbValue::VecI64(vec![]),
-        DbValue::VecI64(vec![1]),
-        DbValue::VecI64(vec![1, 2]),
-        DbValue::VecI64(vec![2, 1]),
-        DbValue::VecU64(vec![]),
-        DbValue::VecU64(vec![1]),
-        DbValue::VecU64(vec![1, 2]),
-        DbValue::VecF64(vec![]),
-        DbValue::VecF64(vec![f(1.0)]),
-        DbValue::VecF64(vec![f(1.0), f(2.0)]),
-        DbValue::VecString(vec![]),
-        DbValue::VecString(vec![st("a")]),
-        DbValue::VecString(vec![st("a"), st("b")]),
-        DbValue::VecString(vec![st("ab"), st("c")]),
-        DbValue::VecString(vec![st("b")]),
-    ]
+    let mut v = vec![DbValue::Bytes(vec![]), DbValue::Bytes(vec![1]), DbValue::Bytes(vec![1, 2])];
+    v.extend([-1, 0, 1, 2, 3, 5, 30, 40].map(DbValue::I64));
+    v.extend([0, 1, 2, 3, 5, 30, 40].map(DbValue::U64));
+    v.extend([-1.0, 0.0, 1.0, 2.0, 3.0, 5.0, 30.5].map(|x| DbValue::F64(f(x))));
+    const SHAPES: [&[u8]; 11] = [&[], &[1], &[1, 1], &[1, 2], &[2, 1], &[1, 1, 2], &[1, 2, 3], &[1, 3], &[2, 3], &[3], &[1, 2, 1]];
+    let letter = |x: u8| ["a", "b", "c"][x as usize - 1].to_string();
+    for sh in SHAPES {
+        v.push(DbValue::String(sh.iter().map(|x| letter(*x)).collect::<String>()));
+    }
+    v.push(s("1"));
+    for sh in SHAPES {
+        v.push(DbValue::VecI64(sh.iter().map(|x| *x as i64).collect()));
+        v.push(DbValue::VecU64(sh.iter().map(|x| *x as u64).collect()));
+        v.push(DbValue::VecF64(sh.iter().map(|x| f(*x as f64)).collect()));
+        v.push(DbValue::VecString(sh.iter().map(|x| letter(*x)).collect()));
+    }
+    v.push(DbValue::VecString(vec!["ab".to_string(), "c".to_string()]));
+    v.push(DbValue::VecString(vec!["bc".to_string(), "a".to_string(), "bc".to_string()]));
+    v
 }
 
 fn comparisons(o: &DbValue) -> Vec<Comparison> {
@@ -907,8 +892,9 @@ pub fn run(args: &Args) -> i32 {
     let total = searches.load(Ordering::SeqCst) + grid_cells.load(Ordering::SeqCst);
     report.set("evaluations", json!(total));
     report.set("distinct_nontrivial", json!(nontrivial.load(Ordering::SeqCst)));
-    report.set("rule", json!("grid: every (stored value, one of 9 comparisons, operand) over a corpus of 41 values of all nine types, each through a real search; lists: every condition list of the stated shapes over the stated alphabets (each list is generated once) on 4 fixed graphs x every element as origin x bfs/dfs x from/to + elements search; one evaluation = one search on the real Db compared with the reference evaluator. distinct_nontrivial = condition lists whose reference selection is a proper non-empty subset of the reachable elements for at least one (graph, origin, search)"));
+    report.set("rule", json!("grid: every (stored value, one of 9 comparisons, operand) over the value corpus (all nine types; strings and lists in 11 systematic shapes each), each through a real search; lists: every condition list of the stated shapes over the stated alphabets (each list is generated once) on 4 fixed graphs x every element as origin x bfs/dfs x from/to + elements search; one evaluation = one search on the real Db compared with the reference evaluator. distinct_nontrivial = condition lists whose reference selection is a proper non-empty subset of the reachable elements for at least one (graph, origin, search)"));
     report.set("exhaustive", json!(true));
+    report.set("grid_corpus_values", json!(values.len()));
     report.set("grid_cells_judged", json!(grid_cells.load(Ordering::SeqCst)));
     report.set("grid_cells_expected_true", json!(grid_true.load(Ordering::SeqCst)));
     report.set("grid_cells_not_judged_undocumented", json!(grid_undefined.load(Ordering::SeqCst)));
@@ -935,7 +921,8 @@ pub fn run(args: &Args) -> i32 {
             "beyond whose condition fails at the origin: both readings accepted (stops there as queries.md literally says / does not block as the rustdoc of beyond() says)",
             "beyond over a condition that itself evaluates to Stop(true): both readings of `&& Continue(true)` accepted (Stop kept / dropped)",
             "when a distance condition stops the search: any of 4 sound policies accepted (never; false from here on; false beyond here; the former plus Equal(n) at n)",
-            "same-type ordering of vectors and bytes; starts/ends-with of a string against a list of strings: grid cell not judged",
+            "same-type ordering of vectors and bytes: grid cell not judged",
+            "starts/ends-with with a LIST operand: judged only where the two readings (the list is a leading/trailing sub-sequence; every listed element matches at the beginning/end) agree, otherwise the grid cell is not judged",
             "distance conditions in elements search: case not judged",
         ]),
     );
